@@ -37,7 +37,9 @@ def fault_point(name, pos, proc=None):
     key = '%s/%s' % (name, pos)
     n = COUNTS.get(key, 0) + 1
     COUNTS[key] = n
-    if FAULT is not None and FAULT[0] == name and FAULT[1] == pos and FAULT[2] == n:
+    # position 'before+' / 'after+': a hook that is simply broken -- it raises at that occurrence and at every later call
+    if FAULT is not None and FAULT[0] == name and (
+            (FAULT[1] == pos and FAULT[2] == n) or (FAULT[1] == pos + '+' and n >= FAULT[2])):
         exc = ProgError('X:%s' % key)
         exc.proc_terminated = proc.has_terminated() if proc is not None else None
         FIRED.append(exc)
@@ -221,6 +223,8 @@ def gen_cases(tier, seed):
                 point, pos = key.rsplit('/', 1)
                 for occ in range(1, n + 1):
                     cases.append(dict(base, fault=[point, pos, occ]))
+                    if point.startswith('on_exit_'):
+                        cases.append(dict(base, fault=[point, pos + '+', occ]))
     return cases
 
 
